@@ -1,4 +1,5 @@
 """C04 (store edits) - Entities::{remove_entities, add_entities, upsert_entities} with TCComputation::ComputeNow executed from the MIR on a store of <= 3 entities
+(one entity per call; two entities in one call on stores of <= 2 entities)
 (+ one parent id without a record) whose parent links are symbolic, from ANY pre-state satisfying the store invariant `ancestors = reachability through parent links, acyclic`
 (one inductive step => edit histories of any length over stores of that size).  Entity is the real struct (real Entity / TCNode-for-Arc<Entity> method bodies); its two
 HashSet<EntityUID> fields are sets with symbolic membership over the concrete ids."""
@@ -120,6 +121,8 @@ def replay(ctx, name, role, NK, present, P, model, edit, why):
     if 'row' in ed:
         row = ed.pop('row')
         ed['parents'] = [j for j in range(NK) if ev(row[j])]
+    if 'more_rows' in ed:
+        ed['more'] = [{'id': t, 'parents': [j for j in range(NK) if ev(r_[j])]} for t, r_ in ed.pop('more_rows')]
     a = ctx.native.ask({'op': 'tc_edit', 'present': list(present), 'keys': NK, 'edges': edges, 'edit': ed})
     if 'ok' not in a:
         return ctx.mismatch(name, f'native tc_edit: {a}')
@@ -135,6 +138,8 @@ def replay(ctx, name, role, NK, present, P, model, edit, why):
             par = None
         else:
             par[ed['id']] = set(ed['parents'])
+            for m_ in ed.get('more', []):
+                par[m_['id']] = set(m_['parents'])
     problems = []
     if par is not None:
         R = {i: set(par[i]) for i in par}
@@ -157,8 +162,8 @@ def replay(ctx, name, role, NK, present, P, model, edit, why):
     return ctx.mismatch(name, f'{why}; abstract counterexample (parent links {edges}, then {ed}), but the real store agrees with reachability')
 
 
-def edit(ctx, op, present, NK, target):
-    """op in remove / add / upsert on entity id `target`"""
+def edit(ctx, op, present, NK, target, more=(), links=None):
+    """op in remove / add / upsert on entity id `target`; `more`: further entity ids in the same call (a batch; add / upsert only)"""
     P = ctx.prog('core')
     meth = {'remove': 'remove_entities', 'add': 'add_entities', 'upsert': 'upsert_entities'}[op]
     cands = [c for c in P.find(r'>::' + meth + '$', 'cedar-policy-core/src/entities.rs') if c.args and c.args[0][1].endswith('Entities')]
@@ -167,7 +172,8 @@ def edit(ctx, op, present, NK, target):
     f = cands[0]
     ctx.use(f)
     N = NK - 1
-    Pb = [[z3.Bool(f'p_{i}_{j}') for j in range(NK)] for i in range(N)]
+    # links: the parent links that may be present in the pre-state (None = every link); the others are absent
+    Pb = [[z3.Bool(f'p_{i}_{j}') if links is None or (i, j) in links else F for j in range(NK)] for i in range(N)]
     # pre-state: the canonical closed store over the parent links P - indirect ancestors are exactly the ids reachable but not direct parents
     # (Entity::add_indirect_ancestor never records a direct parent as indirect), and the hierarchy is acyclic
     Pm = [[Pb[i][j] if i in present else F for j in range(NK)] for i in range(N)]
@@ -182,25 +188,29 @@ def edit(ctx, op, present, NK, target):
         args = [ents, Agg('struct', '~vec_iter', None, [ex.const_int(target, 'u8')]), tc]
     else:
         new = arc(entity(ex, target, row, [F] * NK))
-        args = [ents, Agg('struct', '~vec_iter', None, [new]), none(), tc, Ref(0, ('local', 'EXT'))]
+        more_rows = [(t, [z3.Bool(f'new_parent_of_{t}_{j}') for j in range(NK)]) for t in more]
+        args = [ents, Agg('struct', '~vec_iter', None, [new] + [arc(entity(ex, t, r_, [F] * NK)) for t, r_ in more_rows]), none(), tc, Ref(0, ('local', 'EXT'))]
         heap['EXT'] = Opaque('Extensions', 'ext')
     outs = ex.run(f, args, heap=heap)
     ctx.absorb(ex)
-    nm = f'Entities::{meth}[store {sorted(present)} of ids 0..{NK - 1}, {op} n{target}]'
+    nm = f'Entities::{meth}[store {sorted(present)} of ids 0..{NK - 1}' + (f' with parent links among {sorted(links)}' if links is not None else '') + f', {op} n{target}' + ''.join(f' and n{t}' for t in more) + (' in one call' if more else '') + ']'
     ctx.panic_summary(nm, outs, ex, [pre])
     rets = [o for o in outs if o.kind == 'ret']
     # reference post-state parent links
-    after = sorted(set(present) - {target}) if op == 'remove' else sorted(set(present) | {target})
+    after = sorted(set(present) - {target}) if op == 'remove' else sorted(set(present) | {target} | set(more))
+    new_row = {target: row}
+    if op != 'remove':
+        new_row.update(dict(more_rows))
     P2 = [[F] * NK for _ in range(N)]
     for i in after:
         for j in range(NK):
             if op == 'remove':
                 P2[i][j] = F if j == target else Pb[i][j]
             else:
-                P2[i][j] = row[j] if i == target else Pb[i][j]
+                P2[i][j] = new_row[i][j] if i in new_row else Pb[i][j]
     R2 = reach(P2, N, NK)
     cyc = z3.Or([R2[i][i] for i in after]) if after else F
-    dup = op == 'add' and target in present
+    dup = op == 'add' and (target in present or any(t in present for t in more))
     bad = []
     for o in rets:
         if not (isinstance(o.val, Agg) and o.val.variant in ('Ok', 'Err')):
@@ -214,6 +224,8 @@ def edit(ctx, op, present, NK, target):
         bad.append(z3.And(o.pc + [z3.Not(claim)]))
     role = f'entities.rs: Entities::{meth} keeps ancestors = reachability through the parent links now in the store'
     ed = {'op': op, 'id': target} if op == 'remove' else {'op': op, 'id': target, 'row': row}
+    if op != 'remove' and more:
+        ed['more_rows'] = more_rows
     ctx.decide(f'{nm}/ancestors = reachability afterwards, cycle <=> error, on all {len(rets)} paths', list(ex.invariants) + [z3.Or(bad) if bad else F], ex=ex,
                sample={'paths': len(rets), 'ok_paths': sum(1 for o in rets if o.val.variant == 'Ok')},
                on_sat=lambda m: replay(ctx, nm, role, NK, present, Pb, m, ed, 'after the edit the ancestor relation differs from reachability through parent links'))
@@ -234,4 +246,15 @@ def families(ctx):
     fam.append(('add n2 to a store of 2', lambda: edit(ctx, 'add', (0, 1), NK, 2)))
     fam.append(('upsert (new) n2 into a store of 2', lambda: edit(ctx, 'upsert', (0, 1), NK, 2)))
     fam.append(('add n0 to a store that has it (duplicate)', lambda: edit(ctx, 'add', (0, 1), NK, 0)))
+    # batches: two entities in ONE call (the bookkeeping of already-touched entities is per call), on ids 0..2 (two records + one id without a record)
+    fam.append(('upsert n1 and n0 in one call, store of 2', lambda: edit(ctx, 'upsert', (0, 1), 3, 1, (0,))))
+    fam.append(('upsert n0 and n1 in one call, store of 2', lambda: edit(ctx, 'upsert', (0, 1), 3, 0, (1,))))
+    fam.append(('add n0 and n1 in one call, empty store', lambda: edit(ctx, 'add', (), 3, 0, (1,))))
+    fam.append(('upsert n1 (present) and n0 (new) in one call', lambda: edit(ctx, 'upsert', (1,), 3, 1, (0,))))
+    # a chain n2 -> n1 -> n0 with a side link n1 -> n3 (each link present or not): replacing an entity AND one of its descendants in one call, with a third entity below them
+    fam.append(('upsert n0 and n1 in one call, chain store of 3', lambda: edit(ctx, 'upsert', (0, 1, 2), 4, 0, (1,), links={(1, 0), (2, 1), (1, 3)})))
+    if ctx.tier == 'thorough':
+        fam.append(('upsert n1 and n0 in one call, store of 2, ids 0..3', lambda: edit(ctx, 'upsert', (0, 1), 4, 1, (0,))))
+        fam.append(('upsert n0 and n1 in one call, chain store of 3 (+ n0 -> n3)', lambda: edit(ctx, 'upsert', (0, 1, 2), 4, 0, (1,), links={(1, 0), (2, 1), (1, 3), (0, 3)})))
+        fam.append(('upsert n1 and n0 in one call, chain store of 3', lambda: edit(ctx, 'upsert', (0, 1, 2), 4, 1, (0,), links={(1, 0), (2, 1), (1, 3)})))
     return fam
